@@ -77,4 +77,3 @@ func hashStr(s string) uint64 {
 	}
 	return h
 }
-
